@@ -526,7 +526,7 @@ func init() {
 				done := r.ParallelFor(n*n, func(idx int) {
 					a, b := rs[idx/n], rs[idx%n]
 					for _, key := range []string{"gene", "source"} {
-						for _, p2 := range []string{"a=x", "a=y", "a=x,z;b=q", "a=y,z;b=q"} {
+						for _, p2 := range []string{"a=x", "a=y", "a=x,z;b=q", "a=y,z;b=q", "a=x;pseudo", "a=x/b=y", "a=source of x", "isolation_source=x"} {
 							for _, comp := range []int{0, 1, 2} {
 								la, lb := gts.Location(a), gts.Location(b)
 								if comp >= 1 {
@@ -538,6 +538,9 @@ func init() {
 								p1 := "a=x"
 								if strings.Contains(p2, ",") {
 									p1 = "a=x,z;b=q"
+								}
+								if strings.Contains(p2, "source") {
+									p1 = p2 // one class whose qualifier text mentions "source"
 								}
 								c := c12Case{Kind: "table", L: 6, Feats: []string{key + "|" + locdom.Encode(la) + "|" + p1, key + "|" + locdom.Encode(lb) + "|" + p2}}
 								eval(c, true, 50)
